@@ -505,3 +505,27 @@ PROPS["C03"] = dict(
     assumptions=["pointers aligned to the declared alignment; the leading-guard placement forces page-aligned starts, alignment variety comes from the trailing-guard placement",
                  "the generated-C path is exercised on guarded arenas by C04's runner, not here"],
 )
+
+
+PROPS["C19"] = dict(
+    variant="plain",
+    sources=["props/c19_target.c"],
+    level="exploration",
+    technique="exhaustive enumeration of presented CPUID feature combinations x override settings, one fresh process each, against a truth table",
+    level_text=("every combination of the twelve CPUID/XCR0 bits Orc inspects (4096) is presented through the ORC_VERIF_CPUID hook to a fresh "
+                "process, with and without an override (quick: five hashed override/vendor/variable choices per feature set; thorough: the full product with three "
+                "vendors, eight override values and both variable names). The enumeration of feature sets is complete in both tiers"),
+    level_note=("trusted base: the truth table in props/c19_target.c (avx needs AVX, AVX2, XSAVE, OSXSAVE and XCR0[2:1]=11; sse needs SSE2; mmx "
+                "needs MMX; default = best executable), the cpuid hook (compiled only with ORC_VERIF_HOOKS). The presented CPU changes what "
+                "Orc believes; code is still executed by the real CPU"),
+    stages=[
+        dict(name="enum-cpu-features", mode="enum", quick=dict(), thorough=dict()),
+    ],
+    rule=("case = (feature bits MMX, SSE2, SSE3, SSSE3, SSE4.1, SSE4.2, XSAVE, OSXSAVE, AVX, AVX2, XCR0.SSE, XCR0.AVX; vendor; override value in "
+          "{unset, mmx, sse, avx, c, neon, unknown, empty}; variable in {ORC_TARGET, ORC_BACKEND}). Every case is distinct; all are non-trivial "
+          "(class histogram: expected default, override kind). Oracle: each x86 target's `executable` equals the truth table; default flags are "
+          "a subset of the presented features; without override, or with an override naming a target executable on the presented CPU, the "
+          "default target is exactly the expected one; any other override leaves an executable default (or none); a one-instruction program "
+          "compiled and run through the default path returns the right result."),
+    assumptions=["AMD extended leaves (0x80000001) are presented as zero"],
+)
